@@ -27,6 +27,11 @@ pub struct StallWorld {
 }
 
 pub async fn setup() -> StallWorld {
+    setup_with_api(false).await.0
+}
+
+/// the same world, optionally with the management API (real MetricsServer) on a loopback port
+pub async fn setup_with_api(with_api: bool) -> (StallWorld, Option<u16>) {
     let ol = TcpListener::bind("127.0.0.1:0").await.unwrap();
     let origin = ol.local_addr().unwrap().port();
     tokio::spawn(async move {
@@ -108,7 +113,17 @@ pub async fn setup() -> StallWorld {
     let quic = start_listener_udp(&w, &format!("name: quic\ntype: quic\n{}", tls)).await;
     let rudp = start_listener_udp(&w, "name: rudp\ntype: reverse\ntarget: 127.0.0.1:9\nprotocol: udp").await;
     tokio::time::sleep(std::time::Duration::from_millis(100)).await;
-    StallWorld { w, http, https, socks, sockss, quic, rudp, origin, upstream_stalls, upstream_mute }
+    let api = if with_api {
+        w.state.contexts.clone().gc_thread();
+        let api = free_port();
+        let m: crate::metrics::MetricsServer = serde_yaml::from_str(&format!("bind: 127.0.0.1:{}\nui: null", api)).unwrap();
+        Arc::new(m).listen(w.state.clone()).await.unwrap();
+        tokio::time::sleep(std::time::Duration::from_millis(100)).await;
+        Some(api)
+    } else {
+        None
+    };
+    (StallWorld { w, http, https, socks, sockss, quic, rudp, origin, upstream_stalls, upstream_mute }, api)
 }
 
 /// CONNECT / SOCKS5 to the echo origin over an established byte stream, "ping" must come back
@@ -372,7 +387,23 @@ pub const STAGES: &[&str] = &[
 
 /// every stage: three stalled clients of that kind (they stay for the rest of the run), then a fresh client per listener
 pub async fn stall_matrix(out: &mut Out, property_hint: &str) {
-    let sw = setup().await;
+    stall_matrix_api(out, property_hint, false).await
+}
+
+async fn api_get(port: u16, path: &str) -> bool {
+    let fut = async {
+        let mut s = TcpStream::connect(("127.0.0.1", port)).await.ok()?;
+        s.write_all(format!("GET {} HTTP/1.1\r\nHost: x\r\nConnection: close\r\n\r\n", path).as_bytes()).await.ok()?;
+        let mut v = vec![];
+        s.read_to_end(&mut v).await.ok()?;
+        Some(v.starts_with(b"HTTP/1.1 200"))
+    };
+    tokio::time::timeout(std::time::Duration::from_secs(2), fut).await.ok().flatten().unwrap_or(false)
+}
+
+/// with_api: also probe the management API (GET status / live / history / rules / metrics) at every stage
+pub async fn stall_matrix_api(out: &mut Out, property_hint: &str, with_api: bool) {
+    let (sw, api) = setup_with_api(with_api).await;
     let mut held = Held::default();
     for stage in STAGES {
         for _ in 0..(if stage.starts_with("rudp") { 1 } else { 3 }) {
@@ -388,7 +419,23 @@ pub async fn stall_matrix(out: &mut Out, property_hint: &str) {
             fresh_rudp(sw.rudp)
         );
         let bits: String = [a, b, c, d, e, f].iter().map(|x| if *x { '1' } else { '0' }).collect();
-        out.case(&format!("ST {}", stage), &format!("served={}", bits));
+        let mut api_s = String::new();
+        if let Some(api) = api {
+            let mut abits = String::new();
+            let mut bad = vec![];
+            for path in ["/api/status", "/api/live", "/api/history", "/api/rules", "/api/metrics"] {
+                let ok = api_get(api, path).await;
+                abits.push(if ok { '1' } else { '0' });
+                if !ok {
+                    bad.push(path);
+                }
+            }
+            if !bad.is_empty() {
+                out.oracle_fail("api-blocked", &format!("{}: with clients stalled at stage `{}` (and all earlier stages), no answer within 2 s from GET {}", property_hint, stage, bad.join(", ")));
+            }
+            api_s = format!(" api={}", abits);
+        }
+        out.case(&format!("ST {}", stage), &format!("served={}{}", bits, api_s));
         out.stat("stall_stages");
         if bits != "111111" {
             let names = ["http", "http+tls", "socks", "socks+tls", "quic", "reverse-udp"];
